@@ -28,6 +28,7 @@ Always-on rewrites (counted and reported):
     S2 `-> T` -> `-> (res: T)` (Verus needs a named result)
     S3 `runtime_error!(..)` -> `verr()`   (error messages are not verified)
     S4 `panic!(..)`/`unreachable!(..)`/`unimplemented!(..)` -> `vpanic()` (requires false: reachable panic = failed obligation)
+    S8 `NAME.iter().product()` / `NAME.iter().product::<u64>()` left after the declared rewrites -> `product_slice(&NAME)` (trusted helper with the spec prod(NAME@); iterator adapters are outside the Verus subset)
 """
 import json
 import os
@@ -204,6 +205,10 @@ class Extract:
                 raise UnitError("rewrite must keep line count")
             body = body.replace(rw["old"], rw["new"])
             self.log["rewrites"].setdefault("declared", []).append(dict(old=rw["old"], new=rw["new"], count=c, label=rw["label"]))
+        # S8: iterator product of a named u64 vector/slice not already covered by a declared rewrite (the helper, with its spec, has to be in the unit's prelude)
+        body, n8 = re.subn(r"\b(\w+)\.iter\(\)\.product(?:::<u64>)?\(\)", r"product_slice(&\1)", body)
+        if n8:
+            self.log["rewrites"]["S8"] = n8
         bm = mask(body)
         body_first_line = line_of(src, ob)
         # ----- collect insertions: (offset_in_body, [Line...], replace_len)
